@@ -161,13 +161,9 @@ def run(ctx):
             m_wrap.violated or m_wrap.error, m_na.violated or m_na.error))
 
     # ---- 1. generators
-    jobs = [("MC_Uuid_sub.cfg", dict(VF_SHARD=i, VF_NSHARD=nproc, VF_STRIDE=stride, VF_SEED=ctx.seed), "gen_sub_%d" % i)
-            for i in range(nproc)]
-    jobs += [("MC_Uuid_canonsub.cfg", dict(VF_SHARD=i, VF_NSHARD=nproc), "gen_canonsub_%d" % i) for i in range(nproc)]
-    jobs += [("MC_Uuid_wide.cfg", dict(VF_SHARD=i, VF_NSHARD=nproc, VF_WSTRIDE=8 if quick else 1, VF_SEED=ctx.seed),
-              "gen_wide_%d" % i) for i in range(nproc)]
-    jobs += [("MC_Uuid_ins.cfg", {}, "gen_ins"), ("MC_Uuid_canon.cfg", {}, "gen_canon"), ("MC_Uuid_v1.cfg", {}, "gen_v1"),
-             ("MC_Uuid_time.cfg", {}, "gen_time")]
+    jobs = [("MC_Uuid_parse.cfg", dict(VF_SHARD=i, VF_NSHARD=nproc, VF_STRIDE=stride, VF_WSTRIDE=8 if quick else 1,
+                                       VF_SEED=ctx.seed), "gen_parse_%d" % i) for i in range(nproc)]
+    jobs += [("MC_Uuid_rest.cfg", {}, "gen_rest")]
     cases, gen_states = [], 0
     with cf.ThreadPoolExecutor(nproc) as ex:
         for cs, r in ex.map(lambda j: _gen(ctx, *j), jobs):
@@ -295,7 +291,7 @@ def run(ctx):
     cdir = os.path.join(ctx.tmp, "conc")
     os.makedirs(cdir, exist_ok=True)
     rc, out = vf.run_gotest(ctx, gbin, "^TestVfC19Concurrent$",
-                            env={"VF_CONC_DIR": cdir, "VF_G": conc_g, "VF_M": conc_m, "VF_SHARDS": nproc * 2}, timeout=900)
+                            env={"VF_CONC_DIR": cdir, "VF_G": conc_g, "VF_M": conc_m, "VF_SHARDS": nproc if quick else nproc * 2}, timeout=900)
     summ = _summary(out, "concurrent TimeUUID")
     files = sorted(os.path.join(cdir, f) for f in os.listdir(cdir))
     tot, conc_ok = 0, True
